@@ -172,12 +172,18 @@ bufferevent_readcb(evutil_socket_t fd, short event, void *arg)
 	 * read more data than would make us reach the watermark.
 	 */
 	if (bufev->wm_read.high != 0) {
-		howmuch = bufev->wm_read.high - evbuffer_get_length(input);
+		size_t buffered = evbuffer_get_length(input);
 		/* we somehow lowered the watermark, stop reading */
-		if (howmuch <= 0) {
+		if (buffered >= bufev->wm_read.high) {
 			bufferevent_wm_suspend_read(bufev);
 			goto done;
 		}
+		/* Compare as size_t: a high-water mark above EV_SSIZE_MAX must
+		 * not turn into a negative "room" (which used to suspend
+		 * reading for good although the buffer is below the mark).
+		 * More room than EV_SSIZE_MAX is no limit at all. */
+		if (bufev->wm_read.high - buffered <= (size_t)EV_SSIZE_MAX)
+			howmuch = (ev_ssize_t)(bufev->wm_read.high - buffered);
 	}
 	readmax = bufferevent_get_read_max_(bufev_p);
 	if (howmuch < 0 || howmuch > readmax) /* The use of -1 for "unlimited"
